@@ -2,6 +2,8 @@
 import json, subprocess
 import vlib, reallib
 
+CONTEXTS = ("", "@unwinding")      # on an ordinary thread / from a destructor running while the thread unwinds from an earlier panic
+
 def observe(res):
     exe = reallib.build(res)
     if not exe: return None
@@ -13,7 +15,7 @@ def observe(res):
         t = l.split(" ", 2)
         if t[0] == "NAME": O["names"][t[1]] = t[2]
         elif t[0] == "ROW": form, name, row = l.split(" ")[1:4]; O["rows"].setdefault(form, {})[name] = row
-        elif t[0] == "ASYNC": O["asyncs"][t[1]] = t[2]
+        elif t[0].startswith("ASYNC") and not t[0].startswith("ASYNC_"): O["asyncs"][t[1] + t[0][5:]] = t[2]
         elif len(t) >= 2: O["misc"][t[0]] = t[1]
     return O
 
@@ -21,7 +23,7 @@ def run(res, tier, seed, replay):
     fam = json.load(open(vlib.VERIF + "/tools/sigfam.json"))
     res.cov["rule"] = (f"real: a generated family of {len(fam)} function-pointer types (single-feature variations of fn(u64, &u8) -> u64 in arity, one parameter type, return type, reference mutability, raw-pointer mutability, unsafety, ABI, plus a lifetime-only variant and "
                        "bool-returning traps), one target and one fake item of each; ALL ordered pairs through func! (explicit-type form and the simplified arms), closure!, fake!, the unchecked macros on either or both sides, null pointers, and the async macros over 4 output types; "
-                       "observed per pair: accepted / signature-mismatch panic / null-pointer panic / other, and that the target's bytes are untouched by a refusal; the model's gate (token equality of the Coq printer) predicts every cell, "
+                       "the whole table twice: attempted on an ordinary thread, and attempted from a destructor that runs while the thread is unwinding from an earlier panic; observed per pair: accepted / signature-mismatch panic / null-pointer panic / other, and that the target's bytes are untouched by a refusal; the model's gate (token equality of the Coq printer) predicts every cell, "
                        "and the printer is compared with rustc's type_name of every family member; pairs differing only in lifetime spelling are run and logged, not judged; distinct = distinct (form, feature of target, feature of fake, outcome)")
     res.cov["trusted_base"] = vlib.TRUSTED_COMMON + ["the renderer of token lists to type_name syntax in extract/driver.ml and the compact type syntax parser", "rustc's type_name rendering is checked on the family on every run, not in general"]
     res.assumptions = ["distinct token lists render to distinct strings (checked on the family)", "dyn Trait types are outside the modelled grammar"]
@@ -51,32 +53,33 @@ def run(res, tier, seed, replay):
         elif got == "R": res.violation("an accepted installation was not restored", case, got)
         elif got == "A" and want != "A": res.violation("a replacement of a structurally different type was ACCEPTED", case, f"observed {got}, identical spelling required")
         elif got != want: res.violation(f"identical types refused, or the refusal is not a signature-mismatch panic: observed {got}, expected {want}", case, got)
-    for form in ("func", "arm", "closure", "fake"):
-        for i, t in enumerate(names):
-            row = O["rows"].get(form, {}).get(t)
-            if row is None: res.broke("missing row", f"{form} {t}"); continue
-            for j, f in enumerate(names):
-                if row[j] == "-": continue
-                want = M.get(f"g{i}_{j}")
-                judge(form, t, f, row[j], want)
-    for form, want in (("unchecked_fake", "S"), ("unchecked_target", "S"), ("both_unchecked", "A")):
-        for i, t in enumerate(names):
-            row = O["rows"].get(form, {}).get(t, "")
-            for j, f in enumerate(names):
-                if j < len(row): judge(form, t, f, row[j], want)
-    for j, c in enumerate(O["misc"].get("NULLFAKE", "")):
-        cells += 1
-        if c != "N": res.violation("a null replacement pointer was not refused with the null-pointer panic (or something was modified first)", dict(target=fam[j]["rust"]), c)
-    if O["misc"].get("NULLTARGET") != "null": res.violation("a null target pointer was not refused", {}, O["misc"].get("NULLTARGET"))
-    order = ["u32", "u64", "string", "unit"]
-    for a, t in enumerate(order):
-        row = O["asyncs"].get(t, "")
-        for b, u in enumerate(order):
+    for ctx in CONTEXTS:
+        for form in [f + ctx for f in ("func", "arm", "closure", "fake")]:
+            for i, t in enumerate(names):
+                row = O["rows"].get(form, {}).get(t)
+                if row is None: res.broke("missing row", f"{form} {t}"); continue
+                for j, f in enumerate(names):
+                    if row[j] == "-": continue
+                    want = M.get(f"g{i}_{j}")
+                    judge(form, t, f, row[j], want)
+        for form, want in (("unchecked_fake" + ctx, "S"), ("unchecked_target" + ctx, "S"), ("both_unchecked" + ctx, "A")):
+            for i, t in enumerate(names):
+                row = O["rows"].get(form, {}).get(t, "")
+                for j, f in enumerate(names):
+                    if j < len(row): judge(form, t, f, row[j], want)
+        for j, c in enumerate(O["misc"].get("NULLFAKE" + ctx, "")):
             cells += 1
-            want = "A" if a == b else "S"
-            if b < len(row) and row[b] != want:
-                res.violation(f"async gate: faking an async fn of output {t} with a value of type {u} gave {row[b]}, expected {want}", dict(target=t, value=u), row)
-    if O["misc"].get("ASYNC_UNCHECKED_FAKE") != "sig": res.violation("async: a checked target paired with an unchecked value was not refused", {}, O["misc"].get("ASYNC_UNCHECKED_FAKE"))
+            if c != "N": res.violation("a null replacement pointer was not refused with the null-pointer panic (or something was modified first)", dict(target=fam[j]["rust"], context=ctx or "ordinary"), c)
+        if O["misc"].get("NULLTARGET" + ctx) != "null": res.violation("a null target pointer was not refused", dict(context=ctx or "ordinary"), O["misc"].get("NULLTARGET" + ctx))
+        order = ["u32", "u64", "string", "unit"]
+        for a, t in enumerate(order):
+            row = O["asyncs"].get(t + ctx, "")
+            for b, u in enumerate(order):
+                cells += 1
+                want = "A" if a == b else "S"
+                if b < len(row) and row[b] != want:
+                    res.violation(f"async gate: faking an async fn of output {t} with a value of type {u} gave {row[b]}, expected {want}", dict(target=t, value=u, context=ctx or "ordinary"), row)
+        if O["misc"].get("ASYNC_UNCHECKED_FAKE" + ctx) != "sig": res.violation("async: a checked target paired with an unchecked value was not refused", {}, O["misc"].get("ASYNC_UNCHECKED_FAKE" + ctx))
     res.extra["lifetime_only_pairs_logged_not_judged"] = lifetime_pairs[:8]
     res.cov["evaluations"] += cells; res.cov["traces_validated_against_impl"] += cells; res.cov["distinct_nontrivial"] += len(distinct)
     ix = {m["name"]: i for i, m in enumerate(fam)}
